@@ -513,7 +513,7 @@ fn parse_json_event(input: &[u8], output: &mut [u8]) -> Result<(usize, usize), E
             output[8..16].copy_from_slice(u.to_ne_bytes().as_slice());
             complete |= HAVE_CREATED_AT;
         } else {
-            burn_key_and_value(input, &mut inpos)?;
+            burn_key_and_value(input, &mut inpos, 0)?;
         }
 
         // get past the comma, or detect the close brace and exit
